@@ -8,6 +8,7 @@
                                         judged by the specification only while i*w fits int32
     [bitmap.Join/split] [bm; w]      -> Join([Getw(bm, i, w) for i < 64*len(bm)/w], w); must be bm again
     [bitmap.Slice/ToArray] [ws; from; to] -> ToArray(Slice(ws, from, to))
+    [bitmap.Slice/Slice] [ws; a; b; c; d] -> Slice(Slice(ws, a, b), c, d); must be the slice [a+c, a+d) of ws
     [bitmap.Fmt] [kind; is_slice; vals] -> the string Fmt returns (byte list), P = panic; kind 0..7 = int8, uint8,
                                            int16, uint16, int32, uint32, int64, uint64, 8 = string (not an integer) *)
 From Coq Require Import ZArith List Bool String.
@@ -113,6 +114,19 @@ Definition ops_C14 : list opdef := [
            | Some ws, Some from, Some to => vzs (spec_SliceArray ws from to)
            | _, _, _ => VBad end
        | _ => VBad end) |};
+  {| op_name := "bitmap.Slice/Slice";
+     op_run := fun a => match a with
+       | [ws; VZ a; VZ b; VZ c; VZ d] => match as_zs ws with
+           | Some ws =>
+               if words_okb ws && slice_dom ws a b && (0 <=? c) && (c <=? d) && (d <=? b - a)
+               then vopt_zs (SliceSlice ws a b c d) else VBad
+           | None => VBad end
+       | _ => VBad end;
+     op_spec := fun a obs => match a with
+       | [ws; VZ a; VZ b; VZ c; VZ d] => match as_zs ws, as_zs obs with
+           | Some ws, Some r => spec_Slice_ok ws (a + c) (a + d) r
+           | _, _ => false end
+       | _ => false end |};
   {| op_name := "bitmap.Fmt";
      op_run := fun a => match a with
        | [VZ kind; VZ sl; vals] => match as_zs vals with
